@@ -260,6 +260,16 @@ def main(pid, tier, seed, replay_path=None):
                 if not srv.alive():
                     fails.append(("/updateCache kills the server", qs))
                     srv = l3.Server(binary, cache, stub.port)
+        # an unknown extra parameter must not redirect the reload (e.g. be taken for the custom cache path): after a full refresh
+        # carrying one, a valid request is answered as before
+        probe = qs_of("route", [("origin", "-73.0,45.0001"), ("destination", "-73.0,45.0002"), ("scenario_id", SCEN(1)), ("time_of_trip", "36000")])
+        st_a, hd_a, body_a = srv.get(probe, timeout=20)
+        st_u, hd_u, body_u = srv.get("/updateCache?names=all&foo=bar", timeout=60)
+        st_b, hd_b, body_b = srv.get(probe, timeout=20)
+        l3_evals += 3
+        if st_a is None or st_b is None or body_a != body_b:
+            fails.append(("after /updateCache?names=all&foo=bar the same request is answered differently (%s... -> %s...)" %
+                          ((body_a or b"")[:80], (body_b or b"")[:80]), "/updateCache?names=all&foo=bar"))
     finally:
         srv.stop()
     # not-ready data: every endpoint answers data_error with the code naming the missing collection
